@@ -1,5 +1,6 @@
 """Shared pipeline of bin/check: build harness against /repo, regenerate tables, build and audit the
 Lean project, run the correspondence streams, decide the verdict, write evidence."""
+import json
 import fcntl, hashlib, json, os, re, subprocess, sys, time
 from pathlib import Path
 
@@ -44,6 +45,44 @@ def build_harness(race=False):
     if r.returncode != 0:
         return None, r.stdout
     return out, ""
+
+
+def source_facts(harness):
+    """{relative path: fingerprint} of /repo's non-test Go files (harness facts), or None"""
+    r = run([str(harness), "facts", str(REPO)], timeout=120)
+    if r.returncode != 0:
+        return None
+    try:
+        return json.loads(r.stdout[r.stdout.index("{"):])
+    except (ValueError, json.JSONDecodeError):
+        return None
+
+
+# files every property depends on (shared helpers, Run, the decoder)
+SHARED_FILES = ["model.go", "opset.go", "errors.go", "onnx/graph_proto.go", "ops/validate_inputs.go", "ops/utils.go", "ops/types.go",
+                "ops/errors.go", "ops/slicer.go", "ops/convert.go", "ops/unidir_broadcast.go", "ops/multidir_broadcast.go",
+                "ops/binary_op.go", "ops/activation.go", "ops/recurrent_utils.go", "ops/opset13/opset13.go"]
+
+
+def changed_sources(prop, facts):
+    """the files the property is anchored in (properties.jsonl) plus the shared helpers whose fingerprint differs
+    from source_pins.json - including files that were added or removed there"""
+    pins = json.loads((VERIF / "source_pins.json").read_text())["files"]
+    anchors = []
+    for line in (VERIF / "properties.jsonl").read_text().splitlines():
+        if line.strip():
+            pr = json.loads(line)
+            if pr["id"] == prop:
+                anchors = list((pr.get("anchors") or {}).get("files") or [])
+    watch = set(anchors) | set(SHARED_FILES)
+    out = []
+    if facts is None:
+        return ["<fingerprints unavailable>"]
+    for f in sorted(watch | {k for k in set(pins) ^ set(facts)}):
+        if pins.get(f) != facts.get(f):
+            if f in watch or f not in pins or f not in facts:
+                out.append(f)
+    return out
 
 
 def reflect(harness):
